@@ -212,6 +212,16 @@ void throwing_case(size_t n, std::pair<size_t, size_t> wa, std::pair<size_t, siz
   try { t -= b; } catch (BSplineException &) { thrown++; }
   unchanged("isub-throws/target", t, st, g);
   unchanged("isub-throws/operand", b, sb, h);
+  // the same with a right-hand side of LOWER order (a different instantiation of the in-place operators)
+  if constexpr (o > 0) {
+    auto bl = mkspline<o - 1>(other, wb.first, wb.second, "l");
+    Snap<o - 1> sl(bl);
+    try { t += bl; thrown += 10; } catch (BSplineException &) {}
+    unchanged("iadd-lower-order-throws/target", t, st, g);
+    try { t -= bl; thrown += 10; } catch (BSplineException &) {}
+    unchanged("isub-lower-order-throws/target", t, st, g);
+    unchanged("isub-lower-order-throws/operand", bl, sl, h);
+  }
   // failed constructions / assignments from invalid data leave an existing object alone
   Spline<Real, o> keep(t);
   try { keep = Spline<Real, o>(Support<Real>(grid, 0, n), {}); } catch (BSplineException &) { thrown++; }
